@@ -353,7 +353,7 @@ pub fn split_messages(chunks: &[(Vec<u8>, Vec<RawFd>)]) -> (Vec<Value>, usize) {
         }
         out.push(json!({
             "c": code, "flags": flags, "size": size,
-            "body": hex(body), "nfds": nfds, "fdids": fdids, "fd_first": fd_first_byte,
+            "body": hex(body), "bytes": bytes_json(body), "nfds": nfds, "fdids": fdids, "fd_first": fd_first_byte,
             "val": if size >= 8 { limbs(le64(body, 0)) } else { limbs(0) },
         }));
         off += 12 + size;
